@@ -3,3 +3,4 @@ pub mod frames;
 pub mod headers;
 pub mod modular;
 pub mod stream;
+pub mod vardct;
